@@ -1,5 +1,10 @@
 package main
 
+import (
+	"sort"
+	"strings"
+)
+
 // Per-property registry: evidence level, explanation, extra engines.
 
 var propLevels = map[string]string{
@@ -28,7 +33,54 @@ func propExplanation(p string) string { return propExplain[p] }
 
 type extraEngine func(p *Program, res *CheckResult)
 
-var extraEngines = map[string][]extraEngine{}
+var extraEngines = map[string][]extraEngine{
+	"C11": {wireEngineFor("roundtrip", func(o *Obligation) bool { return !strings.Contains(o.Name, "/dec-any/") })},
+	"C10": {wireEngineFor("total", func(o *Obligation) bool { return strings.Contains(o.Name, "/dec-any/") })},
+}
+
+// wireEngineFor runs the wire engine over every codec pair of the module and keeps the
+// obligations selected by keep (round-trip obligations for C11, totality of decoders on
+// arbitrary input for C10).
+func wireEngineFor(mode string, keep func(*Obligation) bool) extraEngine {
+	return func(p *Program, res *CheckResult) {
+		n := 0
+		for _, ct := range p.codecTypes("") {
+			if wireSkip[typeKey(ct.Named)] {
+				continue
+			}
+			rep := p.WireCheckMode(ct, mode)
+			var obls []*Obligation
+			for _, o := range rep.Obls {
+				if o.Kind == "cover" {
+					if res.Prop == "C11" {
+						obls = append(obls, o)
+					}
+					continue
+				}
+				if keep(o) {
+					obls = append(obls, o)
+				}
+			}
+			rep.Obls = obls
+			if len(obls) == 0 && rep.Err == "" {
+				continue
+			}
+			if rep.Err != "" {
+				rep.OOS = append(rep.OOS, "wire engine: "+rep.Err)
+			}
+			res.Reports = append(res.Reports, rep)
+			res.Obls = append(res.Obls, obls...)
+			n++
+		}
+		res.Extra["codec_pairs_checked"] = n
+		var skipped []string
+		for k := range wireSkip {
+			skipped = append(skipped, k)
+		}
+		sort.Strings(skipped)
+		res.Extra["codec_pairs_outside_engine"] = skipped
+	}
+}
 
 func runExtraEngines(p *Program, res *CheckResult) {
 	for _, e := range extraEngines[res.Prop] {
